@@ -42,6 +42,10 @@ type G struct {
 	kind   string
 	obj    any
 	nchild int
+	// preemptible: the scheduler may take this goroutine off the processor at a scheduling point for a
+	// simulated interval (inherited by goroutines it starts); until: end of the current interval.
+	preemptible bool
+	until       time.Time
 }
 
 // Config of one simulated run.
@@ -52,6 +56,12 @@ type Config struct {
 	MaxSteps int           // scheduling steps after which the run is torn down (0 = 5M)
 	KeepLog  bool          // keep the event log (otherwise only its hash chain)
 	KeepPct  int           // probability (percent) to keep running the current goroutine at a scheduling point; <0: drawn per run from {0,50,90,99}
+	// PreemptMax > 0 enables the fault kind "goroutine descheduled while time passes": at a scheduling
+	// point a goroutine marked SetPreemptible is, with a per-run probability drawn from {0, 0, 0.2%, 2%},
+	// not run for a simulated interval of up to PreemptMax (the clock can advance past timers and deadlines
+	// while it is between two of its own statements - what a busy machine, a GC pause or a long wait for a
+	// lock do to a real thread).
+	PreemptMax time.Duration
 }
 
 // Sched is one run's scheduler.
@@ -72,6 +82,7 @@ type Sched struct {
 	pct     bool // priority-based schedule (PCT): highest priority runnable goroutine runs; priorities drop at a few change points
 	pctNext int  // step of the next priority change point
 	pctLow  int  // lowest priority handed out so far
+	preemptPermille int // per-run probability (per mille) of descheduling a preemptible goroutine at a scheduling point
 
 	Steps    int
 	hash     uint64
@@ -195,6 +206,12 @@ func (s *Sched) runnable(g *G, now time.Time) bool {
 	if g.state != parked {
 		return false
 	}
+	if !g.until.IsZero() {
+		if now.Before(g.until) {
+			return false
+		}
+		g.until = time.Time{}
+	}
 	if g.node != "" {
 		if s.crashed[g.node] {
 			return false
@@ -245,6 +262,9 @@ func Run(cfg Config, main func()) *Sched {
 		s.cfg.KeepPct = []int{0, 50, 90, 99}[m]
 		cfg.KeepPct = s.cfg.KeepPct
 	}
+	if cfg.PreemptMax > 0 {
+		s.preemptPermille = []int{0, 0, 2, 20}[s.ch.intn("cfg", 4)]
+	}
 	root := &G{id: "0", wake: make(chan struct{}), state: parked, kind: "start"}
 	s.all = append(s.all, root)
 	s.spawn(root, main)
@@ -286,6 +306,11 @@ func Run(cfg Config, main func()) *Sched {
 			for _, u := range s.stalled {
 				if u.Before(wakeAt) {
 					wakeAt = u
+				}
+			}
+			for _, g := range s.all {
+				if g.state == parked && !g.until.IsZero() && g.until.Before(wakeAt) {
+					wakeAt = g.until
 				}
 			}
 			s.mu.Unlock()
@@ -333,6 +358,19 @@ func Run(cfg Config, main func()) *Sched {
 			} else {
 				g = rs[s.ch.intn("s", len(rs))]
 			}
+		}
+		if s.preemptPermille > 0 && g.preemptible && s.ch.intn("p", 1000) >= 1000-s.preemptPermille {
+			// the chosen goroutine is taken off the processor instead: 1/1000 .. 1 of PreemptMax
+			unit := cfg.PreemptMax / []time.Duration{1000, 100, 10, 1}[s.ch.intn("p", 4)]
+			d := unit * time.Duration(1+s.ch.intn("p", 10)) / 10
+			if d <= 0 {
+				d = time.Nanosecond
+			}
+			g.until = now.Add(d)
+			s.Faults["goroutine-descheduled"]++
+			s.note("fault:deschedule " + g.id + " " + d.String())
+			s.mu.Unlock()
+			continue
 		}
 		switch g.kind {
 		case "lock":
@@ -420,7 +458,7 @@ func Go(f func()) {
 		return
 	}
 	p.nchild++
-	child := &G{id: p.id + "." + strconv.Itoa(p.nchild), node: p.node, wake: make(chan struct{}), state: parked, kind: "start"}
+	child := &G{id: p.id + "." + strconv.Itoa(p.nchild), node: p.node, preemptible: p.preemptible, wake: make(chan struct{}), state: parked, kind: "start"}
 	if s.pct {
 		child.prio = s.ch.intn("pp", 1<<16)
 	}
@@ -515,6 +553,17 @@ func SetNode(node string) {
 		g := s.cur()
 		s.mu.Lock()
 		g.node = node
+		s.mu.Unlock()
+	}
+}
+
+// SetPreemptible marks the calling goroutine (and goroutines it starts later) as one the scheduler may
+// deschedule for a simulated interval at any of its scheduling points (see Config.PreemptMax).
+func SetPreemptible(on bool) {
+	if s := S; s != nil {
+		g := s.cur()
+		s.mu.Lock()
+		g.preemptible = on
 		s.mu.Unlock()
 	}
 }
